@@ -232,7 +232,7 @@ BP('C09', 'rf-c09-1', 'rf-c09-1.diff',
 BP('C09', 'rf-c09-2', 'rf-c09-2.diff',
    'independent refactoring: mithril-stm MerkleTree::compute_merkle_tree_batch_path (generation of the batch membership proof for the signer-registration tree) is split in three: the input validation (non-empty, in bounds, ordered) moves to a new private helper assert_batch_indices_are_valid(&self, &[usize]); the per-level step of t')
 BP('C09', 'rf-c09-3', 'rf-c09-3.diff',
-   'independent refactoring: mithril-merkle-tree (generic Merkle tree), internal/mithril-merkle-tree/src/merkle_tree.rs: (a) MKProof::verify: the long method chain is unrolled with two intermediate variables (the rebuilt ckb MerkleProof and the boolean returned by its verify) before the unchanged `.then_some(()).with_context(|| "Inv')
+   'independent refactoring: mithril-merkle-tree (generic Merkle tree), internal/mithril-merkle-tree/src/merkle_tree.rs: (a) MKProof::verify: the long method chain is unrolled with two intermediate variables (the rebuilt ckb MerkleProof and the boolean returned by its verify) before the unchanged `.then_some(()).with_context(|| "Inv [first hunk re-applied by hand after fix F18 added the position check to MKProof::verify; the delivered patch is kept as rf-c09-3.orig.diff.txt]')
 BP('C09', 'rf-c09-4', 'rf-c09-4.diff',
    'independent refactoring: mithril-merkle-tree (nested block-range Merkle map), internal/mithril-merkle-tree/src/merkle_map.rs: MKMapProof::verify is split in three steps: the recursive verification of the sub proofs moves to a new private helper verify_sub_proofs(); the check that binds every sub proof to the master proof (key me')
 BP('C13', 'rf-c13-1', 'rf-c13-1.diff',
